@@ -45,6 +45,10 @@ FaultVecs == {[k |-> "write_fault", paras |-> <<P2(<<111, 110, 101>>, <<97>>), P
 EncVals == {[Name |-> n, Comment |-> c, Notes |-> t] : n \in {<<>>, <<111, 110, 101>>}, c \in {<<>>, <<99>>}, t \in {<<>>, <<108, 49, LF, 108, 50>>}}
 EncVecs == {[k |-> "enc_structs", values |-> vs] : vs \in UNION {[1..n -> EncVals] : n \in 1..3}}
            \cup {[k |-> "enc_structs", values |-> vs, dup |-> TRUE] : vs \in UNION {[1..n -> EncVals] : n \in 1..2}}
+           \* the first one or two of three structs are written by one Encode call, as a slice
+           \cup {[k |-> "enc_structs", values |-> vs, slice_first |-> sf, slice_ptr |-> sp] :
+                   vs \in [1..3 -> {[Name |-> <<111, 110, 101>>, Comment |-> <<99>>, Notes |-> <<>>], [Name |-> <<>>, Comment |-> <<>>, Notes |-> <<108, 49, LF, 108, 50>>]}],
+                   sf \in {1, 2, 3}, sp \in BOOLEAN}
 ASSUME Emit(CASE Mode = "tokdocs"  -> SetToSeq({[k |-> Kind, doc |-> d] : d \in TokDocs})
               [] Mode = "bytedocs" -> SetToSeq({[k |-> Kind, doc |-> d] : d \in ByteDocs})
               [] Mode = "paras"    -> SetToSeq(ParaVecs) \o SetToSeq(FaultVecs) \o SetToSeq(EncVecs))
